@@ -65,6 +65,12 @@ class ClassRef:
     def __init__(self, cinfo):
         self.cinfo = cinfo
 
+    def __eq__(self, other):
+        return isinstance(other, ClassRef) and other.cinfo is self.cinfo
+
+    def __hash__(self):
+        return hash((self.cinfo.rel, self.cinfo.name))
+
     def __repr__(self):
         return '<class %s>' % self.cinfo.name
 
@@ -98,17 +104,54 @@ class Elab:
         self.facts = facts
         self.steps = 0
         self.class_attrs = {}
+        self.modglobals = {}
+        self._visible = {}
         self.depth = 0
 
     # ------------------------------------------------------------------ classes
+    def visible_classes(self, rel, seen=None):
+        """name -> ClassInfo visible in module `rel`: imports processed in order (star imports
+        followed recursively, cycles cut), the module's own definitions last"""
+        if rel in self._visible:
+            return self._visible[rel]
+        seen = seen or set()
+        if rel in seen:
+            return {}
+        seen = seen | {rel}
+        out = {}
+        sm = self.facts.sm
+        t = sm.try_tree(rel) if rel else None
+        if t is None:
+            return out
+        m2r = sm.mod2rel()
+        for st in t.body:
+            if isinstance(st, ast.ImportFrom):
+                tgt = sm.resolve_import(rel, st.level, st.module)
+                trel = m2r.get(tgt) if tgt else None
+                for a in st.names:
+                    if a.name == '*':
+                        if trel:
+                            out.update(self.visible_classes(trel, seen))
+                    elif trel:
+                        v = self.visible_classes(trel, seen)
+                        if a.name in v:
+                            out[a.asname or a.name] = v[a.name]
+        for lst in self.facts.classes.values():
+            for c in lst:
+                if c.rel == rel:
+                    out[c.name] = c
+        if len(seen) == 1:
+            self._visible[rel] = out
+        return out
+
     def find_class(self, name, rel=None):
         c = self.facts.classes.get(name)
         if not c:
             return None
         if rel:
-            for k in c:
-                if k.rel == rel:
-                    return k
+            v = self.visible_classes(rel)
+            if name in v:
+                return v[name]
         # prefer library definitions over code_generation / transpilation duplicates
         for k in c:
             if k.rel.startswith('py4hw/base.py') or k.rel.startswith('py4hw/logic') or k.rel.startswith('py4hw/helper'):
@@ -328,6 +371,16 @@ class Elab:
             raise ElabError('super() outside a method')
         if name == 'Exception':
             return ('exception', ' '.join(str(self.strable(a)) for a in args))
+        if name in ('set', 'frozenset'):
+            out = []
+            for x in (args[0] if args else []):
+                if not any(self.eq(x, y) for y in out):
+                    out.append(x)
+            return out          # order-preserving list stands in for a set (iteration order of a set of objects is arbitrary anyway)
+        if name == 'repr':
+            return repr(self.strable(args[0]))
+        if name == 'format':
+            return format(self.strable(args[0]), *args[1:])
         if name == 'any':
             return any(args[0])
         if name == 'all':
@@ -505,14 +558,37 @@ class Elab:
                     frame.pop(t.id, None)
                 else:
                     raise ElabError('del target')
-        elif isinstance(s, (ast.FunctionDef, ast.ClassDef, ast.Global)):
+        elif isinstance(s, ast.Global):
+            frame.setdefault('__globaldecl__', set()).update(s.names)
+        elif isinstance(s, (ast.FunctionDef, ast.ClassDef)):
             raise ElabError('nested definition')
         else:
             raise ElabError('statement %s' % type(s).__name__)
 
+    def eval_name(self, name, rel):
+        return self.eval(ast.Name(id=name, ctx=ast.Load()), {'__rel__': rel})
+
+    def mod_globals(self, rel):
+        if rel not in self.modglobals:
+            d = {}
+            t = self.facts.sm.try_tree(rel) if rel else None
+            if t is not None:
+                for st in t.body:
+                    if isinstance(st, ast.Assign) and len(st.targets) == 1 and isinstance(st.targets[0], ast.Name) \
+                            and isinstance(st.value, (ast.Constant, ast.List, ast.Dict, ast.Tuple, ast.UnaryOp, ast.BinOp)):
+                        try:
+                            d[st.targets[0].id] = self.eval(st.value, {'__rel__': rel, '__nomod__': True})
+                        except (ElabError, PyExc):
+                            pass
+            self.modglobals[rel] = d
+        return self.modglobals[rel]
+
     def assign(self, t, v, frame):
         if isinstance(t, ast.Name):
-            frame[t.id] = v
+            if t.id in frame.get('__globaldecl__', ()):
+                self.mod_globals(frame.get('__rel__'))[t.id] = v
+            else:
+                frame[t.id] = v
         elif isinstance(t, ast.Attribute):
             o = self.eval(t.value, frame)
             if isinstance(o, ObjV):
@@ -592,8 +668,12 @@ class Elab:
         if isinstance(e, ast.Constant):
             return e.value
         if isinstance(e, ast.Name):
-            if e.id in frame:
+            if e.id in frame and e.id not in frame.get('__globaldecl__', ()):
                 return frame[e.id]
+            if not frame.get('__nomod__'):
+                mg = self.mod_globals(frame.get('__rel__'))
+                if e.id in mg:
+                    return mg[e.id]
             c = self.find_class(e.id, frame.get('__rel__'))
             if c is not None:
                 return ClassRef(c)
@@ -609,7 +689,7 @@ class Elab:
                 return {'True': True, 'False': False, 'None': None}[e.id]
             if e.id in ('len', 'range', 'enumerate', 'zip', 'reversed', 'sorted', 'int', 'float', 'str', 'bool', 'list', 'tuple', 'abs', 'min', 'max', 'sum', 'round',
                         'pow', 'divmod', 'hex', 'bin', 'ord', 'chr', 'dict', 'print', 'isinstance', 'type', 'hasattr', 'getattr', 'setattr', 'callable', 'id',
-                        'super', 'Exception', 'any', 'all'):
+                        'super', 'Exception', 'any', 'all', 'set', 'frozenset', 'repr', 'iter', 'next', 'format', 'map', 'filter'):
                 return ('builtin', e.id)
             raise PyExc('NameError', "name '%s' is not defined" % e.id)
         if isinstance(e, ast.Attribute):
